@@ -12,6 +12,7 @@ generic soundness of checked outlines is `inv_step`/`inv_init` (Proofs.lean).
 `unchanged_…_witness`: the code before the fix commit reaches a panic / a late admission.
 -/
 import GPy.C09.Proofs
+import GPy.C09.ProofsMonitor
 import GPy.C09.Generated
 namespace GPy.C09
 
@@ -96,6 +97,82 @@ theorem sync_access {kinds : List Kind} {s : State} (h : Reachable prog kinds s)
 /-- deadlock freedom: while some thread is unfinished (other than Done-waiters before any Close call) some thread can move -/
 theorem no_deadlock {kinds : List Kind} {s : State} (h : Reachable prog kinds s) : DeadlockFree prog s :=
   (inv_always h).deadlockFree outline_sound
+
+/-! ### the observation monitor accepts every trace of the model -/
+
+set_option maxRecDepth 200000 in
+/-- the kernel evaluates the in-flight check on the regenerated program: wherever a thread can be parked after a Python
+body ran it still holds an admission, or holds the mutex knowing `closed = false` -/
+theorem inflight_checked : ∀ k : Kind, inflightOK (prog k) (outline k) = true := by
+  intro k; cases k <;> decide +kernel
+
+/-- body-count annotation of the regenerated program, recomputed; never trusted: see `bodies_checked` -/
+def bodyCount (k : Kind) : BAnnot := bInfer (prog k)
+
+set_option maxRecDepth 200000 in
+/-- the kernel evaluates the thread-local path analysis: every path of an entry point that returns nil has run exactly
+`Kind.bodies` Python bodies (RunCode 1, ModuleInit 1, ResolveAndCompile 0, importing RunCode 3) -/
+theorem bodies_checked : ∀ k : Kind, bCheck (prog k) (bodyCount k) k.bodies = true := by
+  intro k; cases k <;> decide +kernel
+
+/-- an execution that returns nil has run completely -/
+theorem complete_runs {kinds : List Kind} {s : State} (h : Reachable prog kinds s) : CompleteRuns prog s :=
+  completeRuns_of_binv bodies_checked (binv_reachable bodies_checked h)
+
+/-- a goroutine that waited for Done and came back: Done is closed -/
+theorem done_wait_returns_after_done {kinds : List Kind} {s : State} (h : Reachable prog kinds s) : WaitDoneOK prog s :=
+  waitDone_reachable rfl h
+
+/-- all the state facts the monitor's clauses rest on hold in every reachable state -/
+theorem good_always {kinds : List Kind} {s : State} (h : Reachable prog kinds s) : Good prog kinds s :=
+  good_of_reachable outline_sound close_end exec_end_adm exec_end_nb inflight_checked rfl (fun _ hr => complete_runs hr) h
+
+/-- THE MONITOR ACCEPTS EVERY MODEL TRACE: for any number of threads of any kinds and any schedule of tokens
+(`MacroTrace`: each token is a scheduling step `macroStep` of some thread – its shared-state access and the thread-local
+instructions up to its next yield point – or a blocking probe, which repeats the observation), the observation monitor
+of Spec.lean, applied to the observations of the successive model states, answers "OK".  Hence `specV = "OK"` of the
+correspondence run is what the model itself is proved to produce, and every `BAD@…` verdict of the implementation is a
+departure from the model. -/
+theorem monitor_accepts {kinds : List Kind} {tr : List State} (h : MacroTrace prog (State.init kinds) tr) :
+    monitor kinds (tr.map (observe prog)) = "OK" :=
+  monitor_ok outline_sound (fun _ hr => good_always hr) h
+
+/-- the states after each token of a schedule of scheduling steps -/
+def runMacro (P : Kind → List Instr) : State → List Nat → Option (List State)
+  | _, [] => some []
+  | s, t :: r => match macroStep P s t with
+    | none => none
+    | some s' => (runMacro P s' r).map (s' :: ·)
+
+theorem runMacro_trace {P : Kind → List Instr} {s : State} {sched : List Nat} {tr : List State}
+    (h : runMacro P s sched = some tr) : MacroTrace P s tr := by
+  induction sched generalizing s tr with
+  | nil => simp [runMacro] at h; subst h; exact MacroTrace.nil _
+  | cons t r ih =>
+    simp only [runMacro] at h
+    cases hm : macroStep P s t with
+    | none => simp [hm] at h
+    | some s' =>
+      simp only [hm] at h
+      cases hr : runMacro P s' r with
+      | none => simp [hr] at h
+      | some tr' =>
+        simp only [hr, Option.map_some, Option.some.injEq] at h
+        subst h
+        exact MacroTrace.step hm (ih hr)
+
+set_option maxRecDepth 200000 in
+/-- non-vacuity of `monitor_accepts`: a 33-token trace in which Close has to sleep in Cond.Wait while a RunCode is in
+flight, a second RunCode is admitted BETWEEN the Broadcast and the woken Close's re-acquisition of the mutex (Close
+waits again), and Done is finally closed with both bodies run -/
+example : ∃ tr, MacroTrace prog (State.init [.runCode, .close, .runCode]) tr ∧ tr.length = 33 ∧
+    (∃ s ∈ tr.getLast?, s.sh.doneClosed = true ∧ (s.ths.map (·.bodies)) = [1, 0, 1]) := by
+  obtain ⟨tr, htr, hf⟩ := exists_of_map_eq
+    (o := runMacro prog (State.init [.runCode, .close, .runCode])
+      [1,0,0,0,0,1,1,1,1,0,0,0,0,0,2,2,2,2,1,1,1,2,2,2,2,2,1,1,1,1,1,1,1])
+    (f := fun tr => decide (tr.length = 33 ∧ ∃ s ∈ tr.getLast?, s.sh.doneClosed = true ∧ (s.ths.map (·.bodies)) = [1, 0, 1]))
+    (by decide +kernel)
+  exact ⟨tr, runMacro_trace htr, (of_decide_eq_true hf).1, (of_decide_eq_true hf).2⟩
 
 /-! ### the code before the fix commit -/
 
